@@ -127,6 +127,15 @@ func (o *C01) OnExtCall(w *World, c *ExtCall) {
 }
 
 // lockedBy returns what the external chain really locked for event #nonce, in hub units of which denom.
+func listedIn(infos []*mhub2types.TokenInfo, chain, denom string) bool {
+	for _, ti := range infos {
+		if ti.ChainId == chain && ti.Denom == denom {
+			return true
+		}
+	}
+	return false
+}
+
 func (w *World) lockedBy(chain string, nonce uint64) (string, *big.Rat) {
 	if chain == "minter" {
 		for _, ev := range w.MinterEvents() {
@@ -186,6 +195,34 @@ func (o *C01) AfterEnd(w *World) {
 				allow[d].Add(allow[d], v)
 				w.St.Probe("nontrivial")
 				w.St.Probe("deposit-applied")
+			}
+		}
+	}
+	// ... and what an executed batch paid out on the external chain has left the system: of an executed batch only
+	// fees and commissions (at most) may come back as vouchers, each in the denomination of the transfer that paid them
+	for _, a := range t.Applied {
+		e, ok := a.Event.(*mhub2types.BatchExecutedEvent)
+		if !ok {
+			continue
+		}
+		k := bkey(e.ExternalCoinId, e.BatchNonce)
+		b := t.PreEnd.Batches[a.Chain][k]
+		if b == nil || t.Cur.Batches[a.Chain][k] != nil {
+			continue
+		}
+		for _, tx := range b.Transactions {
+			if tx.Token.ExternalTokenId != b.ExternalTokenId {
+				w.St.Probe("executed-batch-mixes-tokens")
+			}
+			if toCold(a.Chain, tx) {
+				continue
+			}
+			if tk := w.TokenOf(a.Chain, tx.Token.ExternalTokenId); tk != nil {
+				if allow[tk.Denom] == nil {
+					allow[tk.Denom] = new(big.Rat)
+				}
+				allow[tk.Denom].Sub(allow[tk.Denom], ToHubUnits(tx.Token.Amount.BigInt(), tk.Decimals))
+				w.St.Probe("execution-paid-out")
 			}
 		}
 	}
@@ -477,6 +514,29 @@ func (o *C11) AfterEnd(w *World) {
 	}
 	t := w.T()
 	st := w.ReadState()
+	// the transit account only carries a chain-to-chain deposit or the refund of one for the duration of the step
+	// that forwards it: whenever such a step fails, what it had put there is rolled back with it. (The payout of an
+	// executed batch is the one step that leaves something behind on purpose: rounding dust of the commission split
+	// and fee remainders it cannot refund.)
+	executed := false
+	for _, a := range t.Applied {
+		if _, ok := a.Event.(*mhub2types.BatchExecutedEvent); ok {
+			executed = true
+		}
+	}
+	if !executed {
+		w.St.Check("C11:transit-unchanged")
+		for _, d := range w.Cfg.Denoms() {
+			pre, ok := w.preEndBal[TempAddr().String()+"|"+d]
+			if !ok {
+				continue
+			}
+			if b := st.Balance(TempAddr(), d); b.GT(pre) {
+				w.Fail("C11", "atomic-fail", "transit-account", fmt.Sprintf("EndBlock without a batch payout raised the bridge's transit account from %s to %s%s: a forwarding or refund step that failed kept the balance it had created", pre, b, d))
+				return
+			}
+		}
+	}
 	// refunds in this EndBlock would blur attribution; C12 handles those accounts
 	refundTo := map[string]bool{}
 	for _, ch := range Chains {
@@ -518,6 +578,10 @@ func (o *C11) AfterEnd(w *World) {
 		d, locked := w.lockedBy(a.Chain, a.Nonce)
 		if locked == nil {
 			continue
+		}
+		if !listedIn(w.preEndTokens, a.Chain, d) || !listedIn(st.TokenInfos(), a.Chain, d) {
+			w.St.Probe("deposit-of-delisted-token")
+			continue // governance took the token off the list: the hub no longer knows what to credit
 		}
 		k := rcv + "|" + d
 		if want[k] == nil {
